@@ -14,7 +14,9 @@ import sys
 import time
 
 VERIF = os.path.dirname(os.path.dirname(os.path.abspath(__file__)))
-WORK = os.path.join(VERIF, ".work")
+# PLSA_WORK: a separate work directory (lock, cargo target dir, fact cache) for development runs that analyse many scratch
+# variants in parallel (tools/regress.sh); the registered checks use the default
+WORK = os.environ.get("PLSA_WORK") or os.path.join(VERIF, ".work")
 DRIVER_DIR = os.path.join(VERIF, "driver")
 DRIVER = os.path.join(DRIVER_DIR, "target", "release", "plsa-driver")
 TARGET = os.path.join(WORK, "target")
